@@ -134,6 +134,71 @@ def run_case_async(c):
     return {"tmo": c["tmo"], "ops": ops, "ret": ret}
 
 
+def tmo_of(i):
+    """Request i configures its own four values (pairwise different across kinds AND requests)."""
+    return {k: v + 20.0 * i for k, v in TMO.items()}
+
+
+def run_overlap(proto, second_has_timeouts, order):
+    """Two calls with DIFFERENT timeout settings whose exchanges overlap on one connection (HTTP/2:
+    r1 holds its response head while r2 runs from start to end, then r1 reads its body; order =
+    "r2-inside" or "interleaved") or follow each other on a kept-alive HTTP/1.1 connection.  Every
+    operation is attributed to the call whose task issued it and must carry THAT call's value."""
+    from .driver import AsyncRun, Call, default_decide
+
+    spec = {"status": 200, "headers": [], "body": b"d" * 40, "frames": [10, 10, 10, 10]} if proto == "h2" else {"framing": "chunked", "body": b"y" * 40, "chunks": [10, 10, 10, 10]}
+
+    def factory(rec):
+        rec.cuts = list(range(9, 200000, 9))
+        if proto == "h1":
+            return H11Peer(plan=lambda req, idx: dict(spec, status=200, headers=[(b"X-Tok", req.token or b"?")]), alpn="http/1.1")
+        return H2ServerPeer(plan=lambda req: spec)
+
+    kw = dict(max_connections=1)
+    if proto == "h2":
+        kw.update(http1=False, http2=True)
+    t1, t2 = tmo_of(1), (tmo_of(2) if second_has_timeouts else None)
+    calls = [
+        Call("r1", "http://origin.test/a", method="POST", headers=[(b"Content-Length", b"20")], content=[b"a" * 10, b"b" * 10], timeout=t1, gates=("read",)),
+        Call("r2", "http://origin.test/b", method="POST", headers=[(b"Content-Length", b"20")], content=[b"c" * 10, b"d" * 10], timeout=t2, gates=("start",) if order == "r2-inside" else ()),
+    ]
+    run = AsyncRun(kw, calls, world=World(default=factory), record=False)
+
+    def decide(r, en):
+        r2done = r.outcome.get("r2", {}).get("result") is not None
+        holding = r.waiting_gate.get("r1") == "read"
+        out = []
+        for s_ in en:
+            if s_[0] == "gate" and s_[1] == "r1" and not r2done and proto == "h2":
+                continue  # r1 keeps its response head until r2 is through
+            if s_[0] == "gate" and s_[1] == "r2" and s_[2] == "start" and not holding and proto == "h2":
+                continue  # r2 starts once r1 holds its response head
+            out.append(s_)
+        return default_decide(r, out)
+
+    try:
+        run.run(decide)
+        ret = "ok" if all(run.outcome.get(n, {}).get("result") == "ok" for n in ("r1", "r2")) else "exc:" + str({n: run.outcome.get(n, {}).get("exc") for n in ("r1", "r2")})
+        ops = []
+        conf = {"r1": t1, "r2": t2}
+        for op in run.net.ops:
+            k = {"connect_tcp": "tcp", "connect_unix": "uds", "start_tls": "tls", "read": "read", "write": "write"}.get(op.kind)
+            if k is None:
+                continue
+            mine = conf.get(op.task)
+            v = op.args.get("timeout")
+            if mine is None:
+                name = "none" if v is None else "foreign"
+                ops.append({"k": k, "t": name, "who": str(op.task), "cfg": False})
+            else:
+                back = {val: key for key, val in mine.items()}
+                name = back.get(v, "none" if v is None else "foreign")
+                ops.append({"k": k, "t": name, "who": str(op.task), "cfg": True})
+    finally:
+        run.finish()
+    return {"tmo": True, "per_op": True, "ops": ops, "ret": ret}
+
+
 def run_into(chk, prop, tier):
     """The exchange part of C16."""
     import copy
@@ -141,6 +206,10 @@ def run_into(chk, prop, tier):
     tlc.sany("MCOpTimeouts.tla")
     cs = cases(tier)
     items = []
+    for proto in ("h2", "h1"):
+        for second in (True, False):
+            for order in (("r2-inside", "interleaved") if proto == "h2" else ("sequential",)):
+                items.append(({"overlap": True, "proto": proto, "plan": "overlap", "body": "parts", "second_has_timeouts": second, "order": order, "mode": "async"}, run_overlap(proto, second, order)))
     for c in cs:
         tr, _ = run_case(c, "sync")
         items.append((dict(c, mode="sync"), tr))
